@@ -210,9 +210,17 @@ func init() {
 		TwiceEvery:  9,
 		Real:        []string{"WLRecipe.Generate/Entropy", "NewWordList", "Password.String/Tokens", "Tokens.Atoms/Separators", "separator presets / NewSFFunction"},
 		Simulated:   []string{"crypto/rand.Reader (choice tape, boundary-biased)", "word/alphabet index order (H2/H3)", "NewWordList visit order (H4)"},
-		Gen: func(seed uint64, tier string) interface{} {
+		GenI: func(seed uint64, tier string, i int) interface{} {
 			r := Sub(seed, "config")
 			s := &C05Spec{Orders: genOrders(r, seed), Tape: TapeSpec{Mode: "choice", Seed: mix(seed, "tape"), Default: "bias"}, N: 6}
+			if i == 0 {
+				// fixed first episode: the input of the recorded known finding (KNOWN_FINDINGS.txt), so that
+				// every run states whether it is still present
+				s.WL = WLCfg{Words: []string{"ka", ""}, Length: 1, Cap: "none", Sep: SepCfg{Kind: "char", Char: "-"}}
+				s.Tape.Default = "last"
+				s.Orders = OrderSpec{Chars: "sorted", Words: "reverse", Visit: "sorted"}
+				return s
+			}
 			s.WL = genWLCfg(r, wlOpt{list: listOpt{min: 1, max: 10, twins: 0.2, precap: 0.15, caseless: 0.15, dups: 0.15, emptyWord: 0.06}, maxLen: 5, allowFancy: true, taint: r.Chance(0.2)})
 			if r.Chance(0.15) {
 				s.WL.Cap = pick(r, []string{"", "ALL", "weird", "First"})
